@@ -238,6 +238,9 @@ def run(ctx):
             "compared with the in-process reference stream for N = 1, total-1, total, total+1, b-1/b/b+1 around sampled cumulative group boundaries "
             "b and points strictly inside groups and Markov levels; honeywords / random_walk line counts; a ruleset that cannot be loaded; static "
             "scan of every print in the guesser; non-trivial = N strictly inside a pre-terminal; distinct by (ruleset, N)")
+    # second tie to the source (translator): name the broken equality if the build lost ExpandGenProofs
+    import expand_tie
+    corr.append(expand_tie.obligation())
     return {"evaluations": dist["cli_runs"], "distinct_nontrivial": nontrivial, "rule": rule, "samples": samples,
             "corr": corr, "violations": vio, "dist": dist, "corr_explained_by_known": False}
 
